@@ -22,12 +22,15 @@ EVIDENCE = dict(
 
 NAN = float("nan")
 UNIVERSE = {
-    "int": {"values": [None, 3, 0],
-            "ops": [("min", (0,)), ("min", (3,)), ("min", (5,)), ("max", (0,)), ("max", (3,)), ("max", (5,))]},
+    "int": {"values": [None, 3, 0, 10 ** 30],
+            "ops": [("min", (0,)), ("min", (3,)), ("min", (5,)), ("max", (0,)), ("max", (3,)), ("max", (5,)),
+                    ("min", (2 ** 63 + 1,)), ("max", (2 ** 64,)), ("min", (10 ** 30,)), ("max", (10 ** 30,)), ("max", (-2 ** 70,))]},
     "float": {"values": [None, 1.5, 0.0, 0.15, 3.14159],
               "ops": [("min", (0.0,)), ("min", (1.5,)), ("min", (2.0,)), ("max", (0.0,)), ("max", (1.5,)), ("max", (2.0,)),
                       ("min", (0.15,)), ("min", (0.2,)), ("max", (0.1,)), ("max", (3.14,)), ("min", (3.1416,)),
-                      ("precision", (1,)), ("precision", (2,)), ("precision", (0,))]},
+                      ("precision", (1,)), ("precision", (2,)), ("precision", (0,)),
+                      # beyond the generator's default range (+-2**63) and the float range
+                      ("min", (1e19,)), ("max", (2e19,)), ("min", (-2e19,)), ("max", (-1e19,)), ("max", (1e300,)), ("precision", (15,))]},
     "str": {"values": [None, "ab", ""],
             "ops": [("len", (2,)), ("len", (0,)), ("len", (1, ...)), ("len", (3, ...)), ("len", (..., 2)), ("len", (..., 1)),
                     ("len", (1, 3)), ("len", (0, ...)), ("len", (..., 0)), ("len", (0, 0)), ("alphabet", ("ab",)), ("alphabet", ("a",)), ("contains", ("a",)), ("contains", ("z",)),
